@@ -7,6 +7,7 @@ import Driver.VecDrv
 import Driver.TokDrv
 import Driver.FmtDrv
 import Driver.ValDrv
+import Driver.SelDrv
 open Cgreen.Drv
 
 /-- Read all of stdin as lines. -/
@@ -38,6 +39,11 @@ def main (args : List String) : IO UInt32 := do
   | ["vec", stp] =>
     for b in blocks lines do
       for l in Cgreen.Drv.VC.runLines (stp.toNat?.getD 100) b do out.putStrLn l
+      out.putStrLn "---"
+    return 0
+  | ["select"] =>
+    for b in blocks lines do
+      for l in Cgreen.Drv.SL.runBlock b do out.putStrLn l
       out.putStrLn "---"
     return 0
   | ["val"] =>
